@@ -143,9 +143,19 @@ def check(run: Run) -> None:
 
     # ---- 2. trivia at token boundaries, reordering ----
     n_defs = 0
-    for i in range(500 if thorough else 110):
-        g = structs.Gen(rng, depth=2, unions=(i % 3 == 0), max_fields=5)
-        text = g.build()
+    # typedef forms (pointer, array, struct with several names) take part with fixed definitions: the generator has none
+    TYPEDEFS = ["typedef uint32 *ptr_t; typedef uint8 arr_t[4]; struct main { ptr_t p; arr_t a; uint16 t; };",
+                "typedef struct _s { uint8 a; uint16 b; } s_t, *sp_t; struct main { s_t s; sp_t q; uint8 t; };",
+                "typedef char *str_t; typedef str_t strs_t[2]; struct main { uint8 n; strs_t v; str_t w; };",
+                "typedef enum { A = 1, B } e_t; typedef e_t *ep_t; struct main { e_t e; ep_t p; uint8 x[2]; };",
+                "typedef uint16 word_t; typedef word_t *wp_t; typedef union { word_t w; uint8 b[2]; } u_t; struct main { wp_t p; u_t u; };"]
+    n_gen = 500 if thorough else 110
+    for i in range(n_gen + 3 * len(TYPEDEFS)):
+        if i < n_gen:
+            g = structs.Gen(rng, depth=2, unions=(i % 3 == 0), max_fields=5)
+            text = g.build()
+        else:
+            text = TYPEDEFS[(i - n_gen) % len(TYPEDEFS)]
         n_defs += 1
         try:
             base = structs.load(text, compiled=False)
